@@ -39,7 +39,4 @@ def search(m):
     return None
 
 
-def replay(ctx, path):
-    body = json.load(open(path))
-    print(json.dumps(body['violations'][0], indent=1)[:2000])
-    return 1
+REPLAY_GENERIC = True   # --replay re-runs the check deterministically with the recorded tier and seed
